@@ -3,6 +3,7 @@ package refcodec
 import (
 	"fmt"
 	"math"
+	"math/rand"
 	"sort"
 	"strconv"
 	"strings"
@@ -122,7 +123,8 @@ func rawAllowed(c byte, fl Flavour) bool {
 	}
 	switch fl {
 	case Header:
-		return c != '%' && c != ',' && c != '(' && c != ')' && c != '\'' && c != ':' && c != '\r' && c != '\n' && c != 0
+		// the protocol's "reduced" header encoding escapes exactly these six characters and nothing else
+		return c != '%' && c != ',' && c != '(' && c != ')' && c != '\'' && c != ':'
 	case Path:
 		return strings.IndexByte("-._~!$&*+;=@", c) >= 0
 	default:
@@ -172,7 +174,11 @@ func (p *ror2Parser) token(isKey bool) (string, error) {
 type ROR2Style struct {
 	EscapeAll bool // percent-encode every byte of every token (alternative but legal)
 	Shuffle   func(n int, swap func(i, j int))
+	Unknown   bool // inject unknown extra members into records
+	Rng       *rand.Rand
 }
+
+var unknownROR2 = []string{"1", "x", "''", "(a:(b:List(1,(c:d))))", "List(1,List(2),(k:v))", "()", "List()", "a%20b", "%28x%29"}
 
 func escapeToken(s string, fl Flavour, st *ROR2Style) string {
 	if s == "" {
@@ -214,7 +220,13 @@ func ror2Float(f float64, bits int) string {
 func EncodeROR2(s *corpus.Schema, t corpus.TypeExpr, v *model.Value, fl Flavour, st *ROR2Style) string {
 	et, td := model.Resolve(s, t)
 	type kv struct{ k, v string }
-	obj := func(entries []kv) string {
+	obj := func(entries []kv, allowUnknown bool) string {
+		if st != nil && st.Unknown && st.Rng != nil && allowUnknown {
+			n := st.Rng.Intn(3)
+			for i := 0; i < n; i++ {
+				entries = append(entries, kv{fmt.Sprintf("zzUnknown%d", i), unknownROR2[st.Rng.Intn(len(unknownROR2))]})
+			}
+		}
 		if st != nil && st.Shuffle != nil {
 			st.Shuffle(len(entries), func(i, j int) { entries[i], entries[j] = entries[j], entries[i] })
 		} else {
@@ -250,14 +262,14 @@ func EncodeROR2(s *corpus.Schema, t corpus.TypeExpr, v *model.Value, fl Flavour,
 		for k, e := range v.Entries {
 			entries = append(entries, kv{k, EncodeROR2(s, *et.Map, e, fl, st)})
 		}
-		return obj(entries)
+		return obj(entries, false)
 	case model.KUnion:
 		if v.Alias == "" {
 			return "()"
 		}
 		for _, m := range td.Members {
 			if m.Alias == v.Alias {
-				return obj([]kv{{m.Alias, EncodeROR2(s, m.Type, v.Member, fl, st)}})
+				return obj([]kv{{m.Alias, EncodeROR2(s, m.Type, v.Member, fl, st)}}, false)
 			}
 		}
 	case model.KRecord:
@@ -274,7 +286,7 @@ func EncodeROR2(s *corpus.Schema, t corpus.TypeExpr, v *model.Value, fl Flavour,
 				entries = append(entries, kv{f.Name, EncodeROR2(s, f.Type, fv, fl, st)})
 			}
 		}
-		return obj(entries)
+		return obj(entries, true)
 	}
 	panic("bad value")
 }
